@@ -24,16 +24,11 @@ SPEC = os.path.join(V.SPEC, "Debugger")
 BASE = 0xC000       # the test runner assembles into the library default segment
 
 
-def local_findings(rep, prop):
-    """Findings delivered with this check (checks/<ID>/findings.jsonl) count as open until the maintainer merges them."""
-    p = os.path.join(HERE, "findings.jsonl")
-    if os.path.exists(p):
-        for line in open(p):
-            line = line.strip()
-            if line:
-                f = json.loads(line)
-                if f.get("property") == prop and f.get("status") == "open":
-                    rep.open.setdefault(f["deviation"], f)
+def pinned(rep, prop):
+    """Open findings decide which reading of the specification is pinned for this tree: open -> the deviation is on,
+    fixed -> off (known_findings.jsonl, or VERIF_FINDINGS for trial runs; rows only in checks/<ID>/findings.jsonl count too)."""
+    rep.open = D.open_rows(D.findings_view((prop,), V.VERIF), prop)
+    return sorted(rep.open)
 
 
 # ------------------------------------------------------------------ programs (data: the spec owns their meaning)
@@ -189,19 +184,31 @@ def run_worker(widx, mos, jobs, perturb, results, errors):
             r["stderr"] = m.stderr_text()[-600:] if r["failed"] else ""
 
 
-def design_level(rep, tier):
+def design_level(rep, tier, devs):
     mc = os.path.join(SPEC, "MC_Debugger.tla")
     sfx = "_quick" if tier == "quick" else ""
-    for name, must in (("ideal", "Deviations = {}: StoppedIsHalted, InspectConsistent, NoSkippedBreakpoint, StepExact"),
-                       ("impl", "Deviations = {PauseRace}: the same properties weakened only by the race witness, AtMostOneInFlight")):
-        r = V.tlc(mc, cfg=os.path.join(SPEC, "MC_Debugger_%s%s.cfg" % (name, sfx)), workers=5, timeout=1500, tag="C19-mc-" + name, xmx="6g")
+    # the pinned reading: the deviations of the open findings; its properties are weakened only by the witness of an open PauseRace
+    ideal_inv = ["TypeOK", "StoppedIsHalted", "InspectConsistent", "NoSkippedBreakpoint", "NoSkipAfterProbe", "StepExact"]
+    impl_inv = ["TypeOK", "StoppedIsHalted_impl", "InspectConsistent_impl", "NoSkippedBreakpoint", "NoSkipAfterProbe", "StepExact_impl", "AtMostOneInFlight"]
+    pcfg = os.path.join(V.workdir("C19-cfg"), "MC_Debugger_pinned%s.cfg" % sfx)
+    with open(pcfg, "w") as f:
+        f.write("SPECIFICATION Spec\nCONSTANTS Lines <- Id7  Prog <- ProgLoopSub  BpSets <- %s  MaxReq = %d  Fuel = 40\nCONSTANT Deviations = %s\n" % (
+            "Bps2" if tier == "quick" else "Bps3", 3 if tier == "quick" else 4, D.tla_set(devs)))
+        f.write("".join("INVARIANT %s\n" % i for i in (impl_inv if "PauseRace" in devs else ideal_inv)))
+    runs = [("ideal", os.path.join(SPEC, "MC_Debugger_ideal%s.cfg" % sfx), "Deviations = {}: StoppedIsHalted, InspectConsistent, NoSkippedBreakpoint, NoSkipAfterProbe, StepExact")]
+    if devs:
+        runs.append(("pinned", pcfg, "Deviations = %s (open findings): the same properties%s" % (D.tla_set(devs), " weakened only by the race witness, AtMostOneInFlight" if "PauseRace" in devs else "")))
+    else:
+        rep.notes.append("no open finding: the pinned reading is the ideal reading")
+    for name, cfgp, must in runs:
+        r = V.tlc(mc, cfg=cfgp, workers=5, timeout=1500, tag="C19-mc-" + name, xmx="6g")
         rep.add_tlc(r)
         if r.invariant_violated:
             rep.violations.append({"why": "design level: MC_Debugger_%s%s invariant violated" % (name, sfx), "replay": {"tlc_output": V.tail(r.out, 120)}, "id": "MC_Debugger_" + name})
             return
         if r.rc != 0 or "Error:" in r.out:
             raise V.ToolError("MC_Debugger_%s failed:\n%s" % (name, V.tail(r.out, 40)))
-        rep.notes.append("MC_Debugger_%s%s: %d distinct states, depth %d; %s hold" % (name, sfx, r.distinct, r.depth, must))
+        rep.notes.append("MC_Debugger %s%s: %d distinct states, depth %d; %s hold" % (name, sfx, r.distinct, r.depth, must))
     r = V.tlc(mc, cfg=os.path.join(SPEC, "MC_Debugger_dup.cfg"), workers=3, timeout=600, tag="C19-mc-dup")
     rep.add_tlc(r)
     if r.invariant_violated:
@@ -211,6 +218,11 @@ def design_level(rep, tier):
         raise V.ToolError("MC_Debugger_dup failed:\n%s" % V.tail(r.out, 40))
     rep.notes.append("MC_Debugger_dup (one source line = two instructions, breakpoints by line): %d distinct states; all properties hold" % r.distinct)
     # counterexamples that must exist: the recorded findings as violations of the ideal reading, and vacuity witnesses
+    r = V.tlc(mc, cfg=os.path.join(SPEC, "MC_Debugger_push_ideal.cfg"), workers=3, timeout=600, tag="C19-mc-push-ideal")
+    rep.add_tlc(r)
+    if r.invariant_violated or r.rc != 0:
+        raise V.ToolError("MC_Debugger_push_ideal (stepOut counting nested calls) failed:\n" + V.tail(r.out, 30))
+    # binding demonstration: every deviation, switched on, is refuted by TLC on the ideal properties
     for name, what in (("race", "PauseRace: StoppedIsHalted fails on the implementation-shaped reading"),
                        ("race_insp", "PauseRace seen by the client: stackTrace/variables disagree"),
                        ("push", "StepOutReadsTopOfStack: StepExact fails when the subroutine pushed data"),
@@ -232,9 +244,9 @@ def design_level(rep, tier):
 
 def main(tier):
     rep = V.Report("C19", tier)
-    local_findings(rep, "C19")
+    devs = pinned(rep, "C19")
     mos = V.build_mos()
-    design_level(rep, tier)
+    design_level(rep, tier, devs)
     rnd = V.rng("C19")
     scripts = tlc_scripts(tier)
     nsess = 260 if tier == "quick" else 1800
@@ -242,6 +254,8 @@ def main(tier):
     jobs, meta = [], {}
     nprobe = 36 if tier == "quick" else 150
     picks = scripts if len(scripts) <= nsess else None
+    through = [c for c in scripts if c["family"] == "runthrough"]
+    scripts = [c for c in scripts if c["family"] == "general"]
     probe_scripts = [c for c in scripts if "probe" in c["script"]]
     pause_scripts = [c for c in scripts if "pause" in c["script"] and "probe" not in c["script"]]
 
@@ -256,6 +270,12 @@ def main(tier):
     for i in range(nsess + nlong + 1, nsess + nlong + nprobe + 1):
         # breakpoints installed while the machine runs freely, anchored by a reading of the running machine's registers
         add(i, probe_scripts[(i - nsess - nlong - 1) % len(probe_scripts)], probe_program(rnd), "probe", True, late=True)
+    i = nsess + nlong + nprobe
+    for case in sorted(through, key=lambda c: (c["bps0"], len(c["script"]))):
+        # every copy of a line that is assembled several times must stop the machine (always driven, independent of the seed)
+        for mk in (dup_loop, dup_macro):
+            i += 1
+            add(i, case, mk(rnd), "slow", True)
     # workers: one unperturbed process (full-speed machine, long programs), the others with seeded sleeps at the hook's gate points
     sd = V.seed()
     perturbs = [None, "%d:400:500" % (sd * 7 + 1), "%d:1500:1000" % (sd * 7 + 2), "%d:3000:600" % (sd * 7 + 3), "%d:800:1000" % (sd * 7 + 4)]
@@ -282,7 +302,7 @@ def main(tier):
     for i, r in sorted(results.items()):
         mt = meta[i]
         hooked += bool(r["hook"])
-        recs.append(V.clip_tree({"id": i, "prog": mt["prog"], "lines": mt["lines"], "base": BASE, "fuel": mt["fuel"], "obs": r["obs"], "hook": r["hook"]}))
+        recs.append(V.clip_tree({"id": i, "prog": mt["prog"], "lines": mt["lines"], "base": BASE, "fuel": mt["fuel"], "obs": r["obs"], "hook": r["hook"], "devs": devs}))
     # binding self-test: one corrupted field in a known-good record must be rejected by the judge
     probe = None
     for rec in recs:
